@@ -5,5 +5,5 @@ import (
 )
 
 func extraStreams(seed uint64, n int, tier string, tmp string, cf *CoqFile) []*Stats {
-	return nil
+	return []*Stats{streamKnown(seed, tmp), streamGlue(seed, n, tier, tmp)}
 }
